@@ -173,7 +173,7 @@ func (s *storage) GetBeforeOrder(ctx context.Context, order int, storageIter Sto
 }
 
 func (s *storage) getWithQuery(ctx context.Context, qry anystore.Query, storageIter StorageIterator) error {
-	iter, err := s.recordsColl.Find(qry).Iter(ctx)
+	iter, err := qry.Iter(ctx)
 	if err != nil {
 		return fmt.Errorf("find iter: %w", err)
 	}
